@@ -800,8 +800,7 @@ class Prop(PropBase):
         np = self.np
         if "ctor_err" in code:
             return f"constructing the reader failed: {code['ctor_err']}"
-        if code.get("ctor_rejects"):
-            return "BasebandReader constructor: " + "; ".join(code["ctor_rejects"])
+        # (argument checks that the property does not state are observed in `rejects` for the evidence, not judged)
         spec = case["spec"]
         info = self._file(spec)
         kind, mode, lsbs = self._desc(spec, info)
